@@ -49,7 +49,9 @@ class PointTopologyFromEdgesSubarray(PointTopology, MeshSubarray):
         )
 
         # Move 'node' to the front of the list
-        nodes.remove(node)
+        if node in nodes:
+            nodes.remove(node)
+
         nodes.insert(0, node)
 
         return nodes
